@@ -51,6 +51,7 @@ int vrt_is_freed (const void *p);
 size_t vrt_region_size (const void *p);   /* size of the registered region / allocated block containing p (0 if none) */
 /* allocation fault injection: fail the k-th allocation from now (1-based), 0 = never */
 void vrt_fail_alloc_after (int k);
+void vrt_fail_my_alloc_after (int k);   /* the same, counting only the calling thread's allocations */
 int vrt_alloc_count (void);
 
 /* plain-access callbacks (from the compile-only -fsanitize=thread instrumentation) */
